@@ -168,7 +168,7 @@ func (my *OctetsStream) Seek(offset int64, whence int) (int64, error) {
 	}
 
 	num += offset
-	if num < 0 {
+	if num < 0 || num > int64(len(my.buffer)) {
 		return 0, ErrInvalidArgument
 	}
 
